@@ -137,6 +137,8 @@ def c17() -> int:
         ("hivemc.bundles", "c17_builtin", {}), K=3, H=H + 6, needs=["c17:vehicle_under_way_at_step_boundary"])
     fsx(c, REQ + ({"dispatcher": True, "cancel": 600, "dispatch_states": ["idle", "repositioning", "dispatchtrip"], "requests": ["r0", "r3", "r5"], "name": "W-req+dispatcher/rematch"},),
         ("hivemc.bundles", "c17", {}), K=K, H=H)
+    # start state with r0 already waiting: hand-overs (one vehicle taken off a request, another dispatched to it in the same step)
+    fsx(c, REQ + ({"prestart": ("r0",), "requests": ["r0", "r1"], "low": False, "name": "W-req/handover"},), ("hivemc.bundles", "c17", {}), K=3, H=5 if quick else 7, needs=["c17:fresh_dispatch"])
     # a human driver whose shift ends while under way to a request and who has nowhere to go home to (no plug at home, no station)
     for k in (1, 2):
         fsx(c, REQ + ({"dispatcher": True, "controller": False, "cancel": 600, "human_shift": k, "low": False, "requests": ["r0", "r6"], "name": f"W-req/dispatcher-only/shift-ends-after-{k}"},),
